@@ -107,7 +107,15 @@ type Func struct {
 	Final  string // final return expression text ("" for void)
 }
 
+// Const is a named package-level constant `pri const NAME : base.T = VALUE`.
+type Const struct {
+	Name  string
+	Base  string
+	Value *big.Int
+}
+
 type Prog struct {
+	Consts []Const
 	Fields []Var // Name without "this."
 	Funcs  []*Func
 }
@@ -172,6 +180,12 @@ func (r *renderer) block(indent int, ss []*Stmt) {
 // reports its statement boundaries; probe = k puts `assert false` at point k.
 func (p *Prog) Render(probe int) (src string, points []Point) {
 	r := &renderer{probe: probe}
+	for _, c := range p.Consts {
+		r.emit(0, fmt.Sprintf("pri const %s : base.%s = %s", c.Name, c.Base, c.Value.String()))
+	}
+	if len(p.Consts) > 0 {
+		r.emit(0, "")
+	}
 	r.emit(0, "pub struct foo?(")
 	for _, f := range p.Fields {
 		r.emit(1, f.Name+" : "+f.T.String()+",")
